@@ -66,6 +66,7 @@ def buildCase (lines : List String) : Case := Id.run do
   let mut c : Case := { raw := lines }
   let mut curG : Option (Nat × RawGrammar) := none
   let mut ops : Array Op := #[]
+  let mut obsAcc : Array (Array (List String)) := #[]      -- observation lines per op (same index)
   for l in lines do
     let ws := words l
     match ws with
@@ -84,16 +85,20 @@ def buildCase (lines : List String) : Case := Id.run do
       c := { c with texts := c.texts ++ [(toNat tid, unhex (rest.headD "").toList)] }
     | "op" :: n :: cmd :: h :: args =>
       ops := ops.push { n := toNat n, cmd := cmd, h := toNat h, args := args }
+      obsAcc := obsAcc.push #[]
     | "o" :: rest =>
       match rest with
       | nstr :: obsWords =>
         match nstr.toNat? with
         | some n =>
-          ops := ops.map fun o => if o.n == n then { o with obs := o.obs ++ [obsWords] } else o
+          match ops.findIdx? (·.n == n) with
+          | some i => obsAcc := obsAcc.modify i (·.push obsWords)
+          | none => pure ()
         | none => c := { c with tail := c.tail ++ [rest] }
       | [] => pure ()
     | _ => pure ()
-  return { c with ops := ops.toList }
+  let opsL := (List.range ops.size).map fun i => { ops[i]! with obs := (obsAcc.getD i #[]).toList }
+  return { c with ops := opsL }
 
 /-- observation lines of an op whose first word is `key` (without that word) -/
 def Op.get (o : Op) (key : String) : List (List String) :=
